@@ -102,8 +102,10 @@ func (cb *CircuitBreaker) IOHandler(ctx context.Context, request []byte, next co
 			err = core.NewPanicError(e)
 		}
 		if err != nil {
-			atomic.AddUint64(&cb.failCount, 1)
+			// the time first: a concurrent call that sees the count above the
+			// threshold must not find the time of an earlier failure
 			atomic.StoreInt64(&cb.lastFailTime, time.Now().UnixNano())
+			atomic.AddUint64(&cb.failCount, 1)
 		}
 	}()
 	response, err = next(ctx, request)
